@@ -101,7 +101,12 @@ def sample(op, rng, edge=None, radix=True, field=None):
     imms = []
     labels = []
     for kind in d["imm"]:
-        if kind == "uint8":
+        if kind == "uint8?":
+            if rng.random() < 0.6:
+                v = edge if edge is not None else rng.choice([0, 0, 1, 2, 7, 255])
+                parts.append(int_text(v, rng, radix))
+                imms.append(("uint8", v))
+        elif kind == "uint8":
             v = edge if edge is not None else rng.choice([0, 1, 2, 3, 7, 15, 255])
             parts.append(int_text(v, rng, radix))
             imms.append((kind, v))
